@@ -486,8 +486,78 @@ def run(chk):
                 "Lattice.__init__ lost the check that every unique site got an object")
 
     run_Q5(chk)
+    run_Q6(chk)
+    run_Q7(chk)
     from . import e10
     e10.run_U(chk, ("yastn.tn.fpeps._geometry",), floor1=5, floor2=1)
+
+
+def run_Q7(chk):
+    """Q7: the patch layer.  While a site is in `_patch` its object lives there; `__getitem__` is the one place that knows (patch first,
+    stored data otherwise).  Every *site-addressed* read of the stored data -- `_site_data[site2index(site)]` in load context -- outside
+    `__getitem__` bypasses an active patch and returns the stale object (whole-container operations address `_site_data` by index,
+    not by site, and are not concerned)."""
+    prog = chk.prog
+    chk.rule("Q7", "site-addressed reads of the stored data go through __getitem__ (patch first)", floor=1)
+    lat = prog.cls(GEO, "Lattice")
+    gi = lat.methods.get("__getitem__")
+    chk.require(gi is not None, "Lattice.__getitem__ not found")
+    n = 0
+    for mod in (GEO, "yastn.tn.fpeps._peps"):
+        for f in prog.all_funcs({mod}):
+            for x in ast.walk(f.node):
+                if isinstance(x, ast.Subscript) and isinstance(x.ctx, ast.Load) and isinstance(x.value, ast.Attribute) and x.value.attr == "_site_data" \
+                        and any(isinstance(c, ast.Call) and A.callee_attr(c) == "site2index" for c in ast.walk(x.slice)):
+                    n += 1
+                    if f is gi:
+                        # the patch test comes first
+                        cfg = CFG(f.node)
+                        par = A.enclosing_map(f.node)
+                        st = A.stmt_of(x, par)
+                        tests = [t for t in ast.walk(f.node) if isinstance(t, ast.If) and "_patch" in A.text(t.test)]
+                        ok = bool(tests) and cfg.must_pass([st], [cfg.node_of[tests[0]]]) and any(isinstance(b_, ast.Return) and "_patch" in A.text(b_) for b_ in tests[0].body)
+                        chk.verdict("Q7", (f, x), "Lattice.__getitem__: patch looked up before the stored data", True if ok else False,
+                                    "Lattice.__getitem__: the stored data is read without consulting the patch first")
+                    else:
+                        chk.bad("Q7", (f, x), x, f"{f.short}(): `{A.short(x, 50)}` reads the stored object of a site directly; if the site is in an active patch "
+                                f"the object set there (psi[site] = X after move_to_patch) is ignored and the stale one is used -- only __getitem__ "
+                                f"(`self[site]`) resolves patch before stored data")
+    chk.require(n >= 1, "no site-addressed read of _site_data found (Lattice.__getitem__ confirmed by hand)")
+
+
+def run_Q6(chk):
+    """Q6: f_ordered is the column-major order of *all* integer sites (infinite lattices use coordinates outside the unit cell): decided
+    by interpreting the function on a grid of witness site pairs (coordinates -3..4, unit cells 2x2 and 3x2) and comparing with
+    (col, row) <= (col', row').  An order computed from a linear index `col * Nx + row` is injective only inside one unit cell."""
+    from ..core.minieval import run_function, CannotEvaluate
+    prog = chk.prog
+    chk.rule("Q6", "f_ordered is the column-major total order on all integer sites (witness evaluation)", floor=1)
+    m = prog.module(GEO)
+    for ci in m.classes.values():
+        f = ci.methods.get("f_ordered")
+        if f is None or f.cls is not ci:
+            continue
+        p_self, p0, p1 = f.params[0], f.params[1], f.params[2]
+        bad = None
+        n = 0
+        try:
+            for (Nx, Ny) in ((2, 2), (3, 2)):
+                for a0 in range(-3, 5):
+                    for a1 in range(-2, 3):
+                        for b0 in range(-3, 5):
+                            for b1 in range(-2, 3):
+                                env = {p0: (a0, a1), p1: (b0, b1), f"{p_self}.Nx": Nx, f"{p_self}.Ny": Ny, f"{p_self}._dims": (Nx, Ny), f"{p_self}.dims": (Nx, Ny)}
+                                got = bool(run_function(f.node, env))
+                                want = (a1, a0) <= (b1, b0)
+                                n += 1
+                                if got != want and bad is None:
+                                    bad = ((a0, a1), (b0, b1), (Nx, Ny), got)
+        except CannotEvaluate as e:
+            raise AnalysisError(f"{ci.name}.f_ordered cannot be interpreted on witness sites ({e})")
+        chk.verdict("Q6", f, f"{ci.name}.f_ordered on {n} witness pairs", True if bad is None else False,
+                    f"{ci.name}.f_ordered({bad[0]}, {bad[1]}) returns {bad[3]} on a {bad[2][0]}x{bad[2][1]} unit cell, the column-major order of sites says "
+                    f"{not bad[3]}: the fermionic order is no longer a total order of all lattice sites compatible with the enumeration of the unit cell "
+                    f"(infinite lattices address sites outside the cell)" if bad else "")
 
 
 def run_Q5(chk):
